@@ -495,17 +495,39 @@ func sortStrings(s []string) {
 	}
 }
 
+// KnownBoundaryKey is the key of the known finding (see KNOWN_FINDINGS.txt).
+const KnownBoundaryKey = "tracker.has.boundary-ts-eq-bts-plus-th"
+
 // violationKey: stable and specific to the kind of failure.
 func (s *scen) violationKey(p *node, bts, th int64, txs []*mtx, reasons []reason, accepted bool, errClass string) string {
 	lv := s.be.level()
 	if accepted {
-		// the real code accepted a block the statement forbids: name the first reason
-		rs := reasons[0]
-		for _, q := range reasons {
-			if q.Kind == "dup-ancestor" || q.Kind == "dup-same-block" {
-				rs = q
-				break
+		// the real code accepted a block the statement forbids.
+		// Known finding (tracker.Has treats ts == bts+th as outside the block,
+		// pinned by goloop's own TestTracker_Basic): ONE key, used only when
+		// every reason is a replay from an unfinalized ancestor whose block
+		// time + threshold equals the transaction's timestamp.
+		isBoundary := func(q reason) bool {
+			if q.Kind != "dup-ancestor" {
+				return false
 			}
+			a, x, _ := p.findOnChain(txs[q.Tx].id)
+			return a != nil && !a.finalized && x.ts == a.max() && inWindow(x.ts, bts, th)
+		}
+		allBoundary := true
+		rs := reasons[0]
+		picked := false
+		for _, q := range reasons {
+			if !isBoundary(q) {
+				allBoundary = false
+				if !picked || ((q.Kind == "dup-ancestor" || q.Kind == "dup-same-block") && rs.Kind != "dup-ancestor" && rs.Kind != "dup-same-block") {
+					rs = q
+					picked = true
+				}
+			}
+		}
+		if allBoundary {
+			return KnownBoundaryKey
 		}
 		tx := txs[rs.Tx]
 		switch rs.Kind {
